@@ -4,7 +4,7 @@ set -e
 src=/tmp/seed/$1/_seed; dst=/verif/seeded/$2
 mkdir -p $dst
 cp $src/patch.diff $dst/patch.diff
-cp $src/meta.json $dst/meta.json
+/venv/bin/python -c "import json,sys,subprocess; m=json.load(open(sys.argv[1])); m['base_commit']=subprocess.run(['git','-C','/tmp/seed/'+sys.argv[3],'rev-parse','--short','HEAD'],capture_output=True,text=True).stdout.strip(); json.dump(m,open(sys.argv[2],'w'),indent=1)" $src/meta.json $dst/meta.json $1
 sed -e "/startswith(.\/tmp\/seed/d" -e "s|sys.path.insert(0, *[\"']/tmp/seed/$1[\"'])|sys.path.insert(0, __import__('os').environ.get('HDC_TREE', '/repo'))|" $src/demo.py > $dst/demo.py
 grep -n "HDC_TREE" $dst/demo.py | head -2
 grep -n "/tmp/seed" $dst/demo.py || true
